@@ -5,7 +5,7 @@ from __future__ import annotations
 import ast
 
 from ..engine.context import Context, compare_parts, is_membership
-from ..engine.loader import walk_expr
+from ..engine.loader import dotted, walk_expr
 from ..engine.report import norm_stmt
 from ..engine.terms import contains, show, strip_sites, subterms
 from ..spec.hap import ERROR_TABLE, ERROR_DEFAULT, TLV_ERROR, TLV_STATE, M
@@ -350,18 +350,52 @@ def _decision_table(ctx: Context) -> None:
         cur = cfg.entry.id
         steps = 0
         result = None
-        while steps < 500:
+        env: dict = {}  # locals bound to constants / classes by a loop over a module-level table
+        iters: dict = {}  # for-statement -> remaining rows
+        while steps < 2000:
             steps += 1
             n = cfg.nodes[cur]
             if n.kind == "raise":
                 classes = [exc for (_d, l, exc) in n.succ if l == "x"]
+                rx = n.ast.exc.func if isinstance(n.ast.exc, ast.Call) else n.ast.exc
+                if isinstance(rx, ast.Name) and rx.id in env and env[rx.id][0] == "cls":
+                    classes = [env[rx.id][1]]
                 result = classes[0] if len(classes) == 1 else "|".join(sorted(classes))
                 break
+            if n.kind == "for_iter":
+                rows = _table_rows(ctx, cfg.func, n.ast.iter)
+                if rows is None:
+                    result = None
+                    break
+                iters[id(n.ast)] = list(rows)
+            if n.kind == "for":
+                rows = iters.get(id(n.ast))
+                if rows is None:
+                    result = None
+                    break
+                if rows:
+                    row = rows.pop(0)
+                    tg = n.ast.target
+                    names = [tg] if isinstance(tg, ast.Name) else list(tg.elts) if isinstance(tg, (ast.Tuple, ast.List)) else None
+                    if names is None or not all(isinstance(x, ast.Name) for x in names) or len(names) != len(row):
+                        result = None
+                        break
+                    for x, v in zip(names, row):
+                        env[x.id] = v
+                    want = "T"
+                else:
+                    want = "F"
+                nxt = [d for (d, l, _e) in n.succ if l == want]
+                if not nxt:
+                    result = None
+                    break
+                cur = nxt[0]
+                continue
             if n.kind == "exit":
                 result = "<returns>"
                 break
             if n.kind == "test":
-                v = _eval_test(ctx, cfg, n, pname, val)
+                v = _eval_test(ctx, cfg, n, pname, val, env)
                 if v is None:
                     result = None
                     break
@@ -418,16 +452,50 @@ def _decision_table(ctx: Context) -> None:
         )
 
 
-def _eval_test(ctx: Context, cfg, n, pname: str, val: bytes):
+def _table_rows(ctx: Context, f, it: ast.AST):
+    """Rows of a module-level tuple/list literal (each row a tuple of ('c', constant) / ('cls', qualname) cells) or None."""
+    d = dotted(it)
+    if d is None:
+        return None
+    r = ctx.prog.resolve_dotted(f.module, d)
+    parts = r.rsplit(".", 1)
+    if not (len(parts) == 2 and parts[0] in ctx.prog.modules and parts[1] in ctx.prog.modules[parts[0]].assigns):
+        return None
+    lits = ctx.prog.modules[parts[0]].assigns[parts[1]]
+    if len(lits) != 1 or not isinstance(lits[0], (ast.Tuple, ast.List)):
+        return None
+    m = ctx.prog.modules[parts[0]]
+    rows = []
+    for row in lits[0].elts:
+        cells = []
+        for cell in (row.elts if isinstance(row, (ast.Tuple, ast.List)) else [row]):
+            dd = dotted(cell)
+            rr = ctx.prog.resolve_dotted(m, dd) if dd else None
+            if rr and (rr in ctx.prog.classes or ctx.prog.known_class(rr)):
+                cells.append(("cls", rr))
+                continue
+            try:
+                c = ctx.prog.eval_const(cell, m, None)
+            except Exception:  # noqa: BLE001
+                return None
+            cells.append(("c", bytes(c) if isinstance(c, bytearray) else c))
+        rows.append(tuple(cells))
+    return rows
+
+
+def _eval_test(ctx: Context, cfg, n, pname: str, val: bytes, env=None):
     e = n.exprs[0]
     cp = compare_parts(e)
     if cp is None:
         return None
     l, op, r = cp
+    env = env or {}
 
     def side(x):
         if isinstance(x, ast.Name) and x.id == pname:
             return ("p", None)
+        if isinstance(x, ast.Name) and x.id in env and env[x.id][0] == "c":
+            return ("c", env[x.id][1])
         if isinstance(x, ast.Call) and len(x.args) == 1 and isinstance(x.func, ast.Name) and x.func.id in ("bytes", "bytearray"):
             return side(x.args[0])
         c = ctx.const(cfg.func, x, default=_NC)
